@@ -34,6 +34,7 @@ func checkC03(c *Ctx, r *Report) {
 	checkCodabarMinLength(c, r)
 	checkCode128RoundTrip(c, r)
 	checkRowScan(c, r)
+	checkNumericOnly(c, r)
 	// the statement quantifies over the requested pixel size: the rendering terms (same obligations as under C14)
 	declareRenderRules(r, 1)
 	renderOneD(c, r)
@@ -935,10 +936,16 @@ func checkUPCEANQuietZone(c *Ctx, r *Report) {
 	// the reader's quiet-zone statements: from `end := endRange[1]` to the IsRange test
 	var stmts []ast.Stmt
 	var endRangeObj types.Object
+	// the end guard's range: the first result of decodeEnd; the outcome of the range test: the first result of IsRange
+	endGuard := firstResultOfCall(rp, rfd, func(o types.Object) bool {
+		fn, ok := o.(*types.Func)
+		return ok && fn.Name() == "decodeEnd"
+	})
+	isRangeRes := firstResultOfCall(rp, rfd, func(o types.Object) bool { return isMethodNamed(o, "", "BitArray", "IsRange") })
 	for _, st := range rfd.Body.List {
 		if as, ok := st.(*ast.AssignStmt); ok && as.Tok == token.DEFINE && len(as.Lhs) == 1 && len(as.Rhs) == 1 {
 			if ix, isIx := as.Rhs[0].(*ast.IndexExpr); isIx && len(stmts) == 0 {
-				if k, isK := constInt(rp, ix.Index); isK && k == 1 && strings.Contains(exprString(ix.X), "endRange") {
+				if k, isK := constInt(rp, ix.Index); isK && k == 1 && endGuard != nil && identObj(rp, ix.X) == endGuard {
 					endRangeObj = identObj(rp, ix.X)
 					stmts = append(stmts, st)
 					continue
@@ -947,7 +954,7 @@ func checkUPCEANQuietZone(c *Ctx, r *Report) {
 		}
 		if len(stmts) > 0 {
 			stmts = append(stmts, st)
-			if ifs, ok := st.(*ast.IfStmt); ok && blockReturnsError(rp, ifs.Body.List, nil) && strings.Contains(exprString(ifs.Cond), "rowIsRange") {
+			if ifs, ok := st.(*ast.IfStmt); ok && blockReturnsError(rp, ifs.Body.List, nil) && isRangeRes != nil && usesIdent(rp, ifs.Cond, isRangeRes) {
 				break
 			}
 		}
@@ -1545,4 +1552,46 @@ func checkRowScan(c *Ctx, r *Report) {
 		}
 		reportFold(r, c, "M-ROWSCAN", key, fd.Pos(), bad)
 	}
+}
+
+// M-NUMERIC: the shared digits-only test of the 1-D writers
+func checkNumericOnly(c *Ctx, r *Report) {
+	r.Rule("M-NUMERIC", "onedWriter_checkNumeric, folded for the empty string, every one-byte string, every pair of an ASCII digit with a byte of each class in both orders and a list of non-ASCII decimal digits (Arabic-Indic, fullwidth, Bengali, Devanagari), accepts exactly the strings whose bytes are all '0'..'9': the writers that call it (ITF, the UPC/EAN family) index their ten-entry pattern tables with contents[i] - '0' byte by byte afterwards", 1)
+	fd, p := c.funcDeclOf("oned", "onedWriter_checkNumeric")
+	key := "oned.onedWriter_checkNumeric"
+	if fd == nil {
+		r.AnchorLost("M-NUMERIC", key, "function not found")
+		return
+	}
+	r.Analysed(key)
+	var inputs []string
+	inputs = append(inputs, "")
+	for b := 0; b < 256; b++ {
+		inputs = append(inputs, string([]byte{byte(b)}))
+		for _, d := range []byte{'0', '5', '9'} {
+			inputs = append(inputs, string([]byte{d, byte(b)}), string([]byte{byte(b), d}))
+		}
+	}
+	inputs = append(inputs, "١٢", "１２３４", "12٣٤56", "০১", "०", "1²", "①")
+	bad := ""
+	for _, in := range inputs {
+		res, err := c.rpfCall(fd, p, []*Val{vstr(in)}, &rpf{unroll: 100, callHook: errCtorHook})
+		if err != nil {
+			bad = "?" + err.Error()
+			break
+		}
+		want := true
+		for i := 0; i < len(in); i++ {
+			if in[i] < '0' || in[i] > '9' {
+				want = false
+			}
+		}
+		accepted := len(res) == 1 && res[0].K == VNil
+		if accepted != want {
+			bad = fmt.Sprintf("onedWriter_checkNumeric(%q) %s; the string %s only of the bytes '0'..'9'", in, map[bool]string{true: "accepts", false: "rejects"}[accepted], map[bool]string{true: "consists", false: "does not consist"}[want])
+			break
+		}
+	}
+	r.Extra("M-NUMERIC inputs", len(inputs))
+	reportFold(r, c, "M-NUMERIC", key, fd.Pos(), bad)
 }
